@@ -57,9 +57,9 @@ CHECKS = {
             "Peer close / HUP handling and buffer_size > max_buffer_size configurations are not generated; the cargo-fuzz target for the byte stream is not built yet.",
             "DESIGN.md §4 C11"),
     "C19": ("exploration",
-            "stateful property-based testing (proptest) of the pure UdpManager with a virtual clock against a reference flow-table model",
+            "stateful property-based testing (proptest) of the pure UdpManager with a virtual clock against a reference flow-table model; generated bursts of interleaved clients against a live worker's UDP listener with recording mock backends (wire lab)",
             "Generated interleavings of client datagrams, backend datagrams, backend resolutions (prompt, late, duplicate, stale), clock advances, timeouts (exact, late, and early as the timer wheel can fire), cap / affinity / PROXY-v2 / cluster reconfiguration, drain and mass teardown; after every call the drained outputs are compared with the model: one backend per flow for its whole life, replies only to the flow's client, payloads at most once and in order, PROXY-v2 prefix validated, admission only under the cap, each flow closed exactly once, accounting and timer consistent. Bounded exploration; the real UDP listener with sockets is not in the loop.",
-            "In-process tier only (the sans-io manager); the UDP shell (sockets, timer wheel) is represented by the harness calling the manager the way lib/src/udp.rs does.",
+            "Sub-check wire: 2..6 clients on their own loopback addresses send keyed datagrams (0 bytes .. 64 KiB) in back-to-back bursts that mix a new flow's first datagram with datagrams of established flows, with one silence beyond the idle timeouts, under generated caps (requests, responses, max flows), affinity modes, load-balancing policies and PROXY-v2 modes; from what the backends recorded and the clients received: one upstream socket per flow life and one backend per life, lives never interleave, every payload byte-exact, at most once and in order, replies only to their own client, caps respected, expired flows closed (a late backend datagram never reaches the client), worker alive. No IPv6, no mid-flow reconfiguration beyond the known finding (affinity change with live flows, strict reproducer).",
             "DESIGN.md §4 C19"),
     "C15": ("exploration",
             "property-based testing of the frame decoder against an independent RFC 9113 reference decode, plus generated anomaly injection into live HTTP/2 conversations (own frame codec over TLS) judged by an expectation model written from RFC 9113",
